@@ -24,12 +24,15 @@ claimed.update({
  "C11": ("property-based testing (rapid): differential testing of two configurations (K0, K0 + one entry) compiled into one binary, each against the reference model", R + "schemas against their models, converters against each other on inputs translated by proto field chain"),
  "C12": ("property-based testing (rapid): metamorphic relation over requests (types subsets, extra messages and files) with byte-level comparison of per-function source text", G + "three plugin runs per case compared function by function"),
  "C13": ("property-based testing (rapid): differential testing of same-package vs separate-package output in one binary", R + "schemas, CopyTo/CopyFrom results and diagnostics of the two layouts must be equal"),
- "C14": ("property-based testing (rapid): repeated process runs and shuffled renderings of one configuration, byte comparison of responses", G + "6 runs + 4 shuffled YAML + 2 shuffled command-line renderings per case"),
+ "C14": ("property-based testing (rapid): repeated process runs and shuffled renderings of one configuration, byte comparison of responses", G + "6 runs + 6 shuffled YAML + 6 shuffled command-line renderings per case, plus repeated runs of a request with two files to generate"),
  "C15": ("property-based testing (rapid): metamorphic relation under declaration-order permutations (bytes with sort on, behaviour in one binary with sort off)", G + "and, with sort off, " + R + "permuted and original descriptors must agree"),
  "C16": ("property-based testing (rapid): metamorphic relation over channel splits of one configuration, byte comparison; failure cases", G + "all-YAML vs every drawn split, precedence and failure cases"),
  "C17": ("property-based testing (rapid): call-log oracle over instrumented user hooks + metamorphic type flip", R + "hook calls matched against the custom fields reached"),
  "C18": ("property-based testing (rapid): fault injection of one unmappable field with per-function differential comparison and a reference model of reachability", G + "runs without the field, with it, and with it excluded"),
 })
+FZ = "; thorough tier additionally runs a coverage-guided native fuzz campaign (go test -fuzz through rapid.MakeFuzz, same generators and oracle) on the repository's test.proto"
+for k in ("C04", "C05", "C06", "C08", "C09"):
+    claimed[k] = (claimed[k][0] + FZ, claimed[k][1])
 pending = "check under construction in this round (not yet claimed)"
 checks, na = [], []
 for p in props:
